@@ -177,10 +177,50 @@ def oracle(case, out):
     return None
 
 
+def index_roundtrip(res, rng):
+    """the codec as the indexes use it: row ids and keys stored in a real skip-list / B-tree index come back unchanged
+    from point lookups and from the range-scan iterator (every byte of page id and slot number carries information)"""
+    from dbsession import DB
+    for kind in "sb":
+        db = DB(mem_kb=1200)
+        try:
+            if not db.open().startswith("ok"):
+                res.broken.append("index round trip: database does not start"); return
+            db.cmd("mktable t a:i:%s,b:i:n" % kind)
+            ents = set()
+            for i in range(120 if res.tier == "quick" else 1500):
+                k = rng.choice([0, 1, 255, 256, 65535, 65536, 2**31 - 1, -1, -256, -2**31 + 1]) if rng.random() < 0.3 else rng.randrange(-10**6, 10**6)
+                rid = (rng.randrange(0, 2**31), rng.randrange(0, 65536 if kind == "b" else 2**32))
+                if rng.random() < 0.3:
+                    rid = (rng.choice([0, 255, 256, 65535, 2**31 - 1]), rng.choice([0, 255, 256, 257, 65535]))
+                if (k, rid) in ents:
+                    continue
+                ents.add((k, rid))
+                db.cmd("ixins t 0 i:%d %d %d" % (k, rid[0], rid[1]))
+            a = db.cmd("ixrange t 0 - -")
+            got = sorted(a[3:].split(";")) if a.startswith("ok:") and a[3:] else []
+            want = sorted("i:%d@%d.%d" % (k, p, sl) for k, (p, sl) in ents)
+            res.evaluations += len(ents)
+            if got != want:
+                bad = sorted(set(got) ^ set(want))[:6]
+                res.oracle_failures.append(("# index kind %s: %d entries inserted with ixins, then ixrange t 0 - -\n" % (kind, len(ents)) + "\n".join(l for l in db.log if l.startswith("ixins"))[:3000],
+                                            "row ids / keys stored in a %s index do not come back unchanged from the range-scan iterator: differing entries %s" % ({"s": "skip-list", "b": "B-tree"}[kind], bad)))
+                continue
+            for k, rid in sorted(ents)[:40]:
+                a = db.cmd("ixscan t 0 i:%d" % k)
+                wantp = sorted("%d.%d" % r for kk, r in ents if kk == k)
+                if not a.startswith("ok:") or sorted(a[3:].split(";")) != wantp:
+                    res.oracle_failures.append(("ixscan t 0 i:%d" % k, "point lookup in a %s index returns %s, stored row ids %s" % (kind, a[:120], wantp[:6])))
+                    break
+        finally:
+            db.destroy()
+
+
 def run(res, replay=None):
     res.rule = ("boundary grids (all +-2^k+-1 integers, every float exponent boundary, +-0, denormals, +-Inf, +-MaxFloat32; "
                 "string prefix families, lengths 0..255; row-id grid) plus seeded random values and pairs; "
-                "non-trivial = distinct case whose two values differ (pairs) or a distinct single value")
+                "non-trivial = distinct case whose two values differ (pairs) or a distinct single value; plus a round trip of keys and row ids (all bytes significant) through real skip-list and B-tree indexes "
+                "(range-scan iterator and point lookup)")
     res.trusted = COMMON_TRUSTED + ["f_cmp (IEEE order on bit patterns) is validated against Go's native float32 < / == on every pair"]
     res.assumptions = ["floats are compared by the reference order f_cmp on bit patterns; NaN excluded as in the property"]
     go_ok = standard_build(res)
@@ -216,5 +256,7 @@ def run(res, replay=None):
             if model is not None and impl[i] != model[i]:
                 res.mismatches.append((c, "impl: %s | model: %s" % (impl[i], model[i])))
     res.distribution = kinds
+    if go_ok and not replay:
+        index_roundtrip(res, random.Random(res.seed + 18))
     if impl is not None:
         res.samples = ["%s => %s" % (cases[i], impl[i]) for i in (0, len(cases) // 3, len(cases) // 2, len(cases) - 1)]
